@@ -11,3 +11,10 @@ package syntax
 // ---- determinism and thread-compatibility (C03, C05): no function of the package writes a
 // package-level variable at run time (what one execution left there another would read)
 //@ globals_readonly [C03,C05] none
+
+// ---- legacy dialect flags (C09): each option is governed by the documented resolver variable --
+// while loops, top-level control and global reassignment all by AllowGlobalReassign, recursion by
+// AllowRecursion, sets by AllowSet
+//@ func LegacyFileOptions
+//@   prop C09
+//@   ensures result != nil && result.Set == resolverAllowSet && result.While == resolverAllowGlobalReassign && result.TopLevelControl == resolverAllowGlobalReassign && result.GlobalReassign == resolverAllowGlobalReassign && result.Recursion == resolverAllowRecursion && result.LoadBindsGlobally == resolverLoadBindsGlobally
